@@ -16,7 +16,7 @@
 (* computed from the logged calls and their result kinds only, never from   *)
 (* the observed values.  One VERDICT line is printed per trace.             *)
 (***************************************************************************)
-EXTENDS Queries, Json, IOUtils, TLCExt
+EXTENDS Derived, Json, IOUtils, TLCExt
 
 Traces == JsonDeserialize(IOEnv.TRACE_FILE)
 
@@ -82,8 +82,14 @@ StepBattery ==
   /\ fails' = fails \cup { <<l, x[1], x[2]>> : x \in NotOk(C02_Table(R, Line.obs, Line.q)) }
   /\ UNCHANGED <<R, T, rej, prevO>>
 
+\* C06 / C16 / C09-C11: a graph derived from the current object
+StepDerive ==
+  /\ Line.op = "derive"
+  /\ fails' = fails \cup { <<l, x[1], x[2]>> : x \in NotOk(DeriveTable(R, prevO, Line)) }
+  /\ UNCHANGED <<R, T, rej, prevO>>
+
 Step == /\ l <= Len(Traces[tid])
-        /\ (StepNew \/ StepAdd \/ StepNode \/ StepObserve \/ StepBattery)
+        /\ (StepNew \/ StepAdd \/ StepNode \/ StepObserve \/ StepBattery \/ StepDerive)
         /\ l' = l + 1
         /\ UNCHANGED tid
 
